@@ -627,7 +627,7 @@ def kron_case(draw, tier):
         heavy = draw(st.integers(0, 19 if tier == "quick" else 11))
         if heavy == 0:
             dims = [3, 3]
-        elif heavy <= 2:
+        elif heavy <= (4 if tier == "quick" else 3):
             dims = [2, 2, 2]
         else:
             dims = draw(st.sampled_from([[2, 2], [2, 2], [2, 3], [3, 2]]))
@@ -637,7 +637,7 @@ def kron_case(draw, tier):
         if d == 9:
             n_mp = draw(st.integers(0, 1))
         elif d == 8:  # two measurement processes among three factors: G x (M x M), (M x G) x M, (M x M) x G ...
-            n_mp = draw(st.sampled_from([0, 1, 2, 2]))
+            n_mp = draw(st.sampled_from([0, 1, 2, 2, 2, 2]))
         else:
             n_mp = draw(st.sampled_from([0, 1, 1, 2, 2, 2]))
         slots = draw(st.permutations(list(range(k))))
